@@ -163,6 +163,40 @@ def _mentions(t, v):
     return any(_mentions(c, v) for c in t.children())
 
 
+def unroll_small(s, summands):
+    """bound variables whose range is provably a small constant under the path condition are unrolled"""
+    out = []
+    for bound, body in summands:
+        todo = [(list(bound), body)]
+        done = []
+        while todo:
+            b, bd = todo.pop()
+            hit = None
+            for i, (v, n) in enumerate(b):
+                if z3.is_int_value(z3.simplify(n)):
+                    c = z3.simplify(n).as_long()
+                    if c <= 4:
+                        hit = (i, c)
+                        break
+                    continue
+                for c in (1, 2, 0, 3):
+                    if _unsat(s, n != c):
+                        hit = (i, c)
+                        break
+                if hit:
+                    break
+            if hit is None:
+                done.append((b, bd))
+                continue
+            i, c = hit
+            v = b[i][0]
+            rest = b[:i] + b[i + 1:]
+            for val in range(c):
+                todo.append((list(rest), z3.substitute(bd, (v, z3.IntVal(val)))))
+        out += done
+    return out
+
+
 def _expand(summands):
     """bodies into sums of monomials; one summand per monomial"""
     out = []
@@ -181,10 +215,63 @@ def _expand(summands):
     return out
 
 
+def _factors(t):
+    """(numeric coefficient as z3 rational, [non-numeric factors]) of a monomial"""
+    coef = z3.RealVal(1)
+    fs = []
+
+    def walk(x):
+        nonlocal coef
+        if z3.is_app(x) and x.decl().kind() == z3.Z3_OP_MUL:
+            for c in x.children():
+                walk(c)
+        elif z3.is_app(x) and x.decl().kind() == z3.Z3_OP_UMINUS:
+            coef = coef * -1
+            walk(x.arg(0))
+        elif z3.is_rational_value(x) or z3.is_int_value(x):
+            coef = coef * x
+        elif z3.is_app(x) and x.decl().kind() == z3.Z3_OP_TO_REAL and z3.is_int_value(x.arg(0)):
+            coef = coef * x.arg(0)
+        else:
+            fs.append(x)
+
+    walk(t)
+    return z3.simplify(coef), fs
+
+
+def cancels(s, facts, m1, m2) -> bool:
+    """m1 + m2 == 0 : first by AC-matching of factors (each factor equality is a linear/UF query), then by
+    asking the solver for the non-linear identity directly"""
+    c1, f1 = _factors(z3.simplify(m1))
+    c2, f2 = _factors(z3.simplify(m2))
+    if len(f1) == len(f2) and z3.is_true(z3.simplify(c1 + c2 == 0)):
+        s.push()
+        s.add(*facts)
+        remaining = list(f2)
+        ok = True
+        for a in f1:
+            hit = None
+            for j, b in enumerate(remaining):
+                if a.sort() != b.sort():
+                    continue
+                if a.eq(b) or _unsat(s, a != b):
+                    hit = j
+                    break
+            if hit is None:
+                ok = False
+                break
+            remaining.pop(hit)
+        s.pop()
+        if ok:
+            return True
+    return _unsat(s, *facts, m1 + m2 != 0)
+
+
 def prove_equal(s: z3.Solver, lhs, rhs) -> bool:
     """True if  lhs == rhs  follows (under the assertions of s) by sum normalisation + cancellation"""
     try:
         summands = normalise(lhs - rhs)
+        summands = unroll_small(s, summands)
         summands = _expand(summands)
         summands = collapse(s, summands)
         summands = _expand(summands)
@@ -215,7 +302,7 @@ def prove_equal(s: z3.Solver, lhs, rhs) -> bool:
                     continue
                 sub = [(b2[perm[a]][0], b1[a][0]) for a in range(len(b1))]
                 body2p = z3.substitute(body2, *sub)
-                if _unsat(s, *_range_facts(b1), body1 + body2p != 0):
+                if cancels(s, _range_facts(b1), body1, body2p):
                     found = True
                     break
             if found:
@@ -223,7 +310,20 @@ def prove_equal(s: z3.Solver, lhs, rhs) -> bool:
                 break
         if not found:
             return False
+    # plain monomials: cancel pairwise first, the rest in one query
+    rest = []
+    pl = list(plain)
+    while pl:
+        a = pl.pop()
+        for j, b in enumerate(pl):
+            if a.sort() == b.sort() and cancels(s, [], a, b):
+                pl.pop(j)
+                break
+        else:
+            rest.append(a)
+    if not rest:
+        return True
     total = z3.RealVal(0)
-    for p in plain:
+    for p in rest:
         total = total + (z3.ToReal(p) if p.sort() == z3.IntSort() else p)
     return _unsat(s, total != 0)
